@@ -645,3 +645,236 @@ Proof.
   - right; right. exists a. repeat split; auto. lia.
   - right; left. exists n, ep. repeat split; auto. lia.
 Qed.
+
+Lemma other_ledger s l s' : step s l = Some s' -> match l with LAdv _ => False | _ => True end ->
+  m_count s' = m_count s /\ tokens s' = tokens s.
+Proof.
+  intros H L. unfold tokens, inflight. destruct l; try contradiction; simpl in H.
+  - start_cases H; apply ltb_lt in Hlt; unf; sums infl; rewrite ?infl_pc, ?(infl_at _ _ _ Hpc); split; auto; lia.
+  - repeat match type of H with
+    | None = Some _ => discriminate
+    | context [match ?x with _ => _ end] => destruct x eqn:?
+    end; try discriminate; inv_some H; sums infl; auto.
+  - repeat match type of H with
+    | None = Some _ => discriminate
+    | context [match ?x with _ => _ end] => destruct x eqn:?
+    end; try discriminate; inv_some H; sums infl; auto.
+  - repeat match type of H with
+    | None = Some _ => discriminate
+    | context [match ?x with _ => _ end] => destruct x eqn:?
+    end; try discriminate; inv_some H; sums infl; auto.
+  - vstep_cases H; sums infl; auto.
+  - destruct (0 <=? d); inv_some H; sums infl; auto.
+Qed.
+
+Definition cons_inv (s : state) : Prop :=
+  pcwf_inv s /\ 0 <= m_count s < W64 /\ m_count s mod W64 = tokens s mod W64 /\ m_count s <= tokens s.
+
+Lemma cons_inv_step s l s' : cons_inv s -> step s l = Some s' -> cons_inv s'.
+Proof.
+  intros (Iw&Ir&Im&Il) H. split; [eapply pcwf_inv_step; eauto|].
+  destruct l; try (destruct (other_ledger _ _ _ H Logic.I) as [E1 E2]; rewrite E1, E2; auto).
+  simpl in H. pose proof (tstep_sp _ _ _ H) as [Ht _].
+  destruct (tstep_ledger _ _ _ H (Iw _ Ht)) as [[E1 E2]|[(n&ep&Ep&E1&E2)|(a&Ep&E1&E2)]]; rewrite E1, E2.
+  - auto.
+  - pose proof (Iw _ Ht) as [_ W2]. rewrite Ep in W2. unfold wrap. pose proof W64_pos.
+    repeat split.
+    + apply Z.mod_pos_bound; lia. + apply Z.mod_pos_bound; lia.
+    + rewrite Z.mod_mod by lia. rewrite Z.add_mod by lia. rewrite Im. rewrite <- Z.add_mod by lia. reflexivity.
+    + transitivity (m_count s + n); [apply Z.mod_le; lia|lia].
+  - pose proof (Iw _ Ht) as [W1 W2]. rewrite Ep in W1, W2. specialize (W1 a eq_refl). unfold args_ok in W1. pose proof W64_pos.
+    repeat split; try lia.
+    rewrite Zminus_mod. rewrite Im. rewrite <- Zminus_mod. reflexivity.
+Qed.
+
+Lemma reachable_inv (P : state -> Prop) s0 : P s0 -> (forall s l s', P s -> step s l = Some s' -> P s') ->
+  forall s, reachable s0 s -> P s.
+Proof. intros H0 Hs s R. induction R; eauto. Qed.
+
+Lemma init_nthreads c o ths nv : nthreads (init c o ths nv) = length ths.
+Proof. unfold nthreads, init; simpl. apply map_length. Qed.
+Lemma init_pcof c o ths nv t : pcof (init c o ths nv) t = Idle.
+Proof.
+  unfold pcof, getth, init; simpl. revert t; induction ths; destruct t; simpl; auto.
+Qed.
+Lemma init_ssum F c o ths nv : (forall vc, F (mk_thread vc Running) = 0) -> ssum F (init c o ths nv) = 0.
+Proof. intros H. unfold ssum, init; simpl. induction ths; simpl; auto. rewrite H, IHths. reflexivity. Qed.
+
+Lemma cons_inv_init c o ths nv : 0 <= c < W64 -> cons_inv (init c o ths nv).
+Proof.
+  intros Hc. unfold cons_inv. split.
+  - intros t _. rewrite init_pcof. split; [discriminate|exact Logic.I].
+  - unfold tokens, inflight. rewrite init_ssum by reflexivity. simpl. repeat split; try lia. f_equal; lia.
+Qed.
+
+Lemma sp_inv_init c o ths nv : sp_inv (init c o ths nv).
+Proof.
+  split.
+  - intros t _ H. rewrite init_pcof in H. discriminate.
+  - simpl. discriminate.
+Qed.
+
+Lemma tstep_gret0 s t s' : tstep s t = Some s' -> pc_wf (pcof s t) -> g_ret0 s <= g_ret0 s'.
+Proof.
+  intros H. unfold pcof. tstep_cases H; intros [W1 W2]; rewrite ?Hpc in *; unf; brk; st; try lia.
+  all: specialize (W1 a eq_refl); unfold args_ok in W1; destruct W2 as [[? ?]|[? ?]]; lia.
+Qed.
+Lemma gret0_mono s l s' : pcwf_inv s -> step s l = Some s' -> g_ret0 s <= g_ret0 s'.
+Proof.
+  intros Iw H. destruct l.
+  - simpl in H. destruct (start_effect _ _ _ _ H) as (_&_&_&_&_&_&_&_&_&_&_&E&_). lia.
+  - simpl in H. pose proof (tstep_sp _ _ _ H) as [Ht _]. eapply tstep_gret0; eauto.
+  - destruct (sched_effect _ _ _ H Logic.I) as (_&_&_&_&_&E&_). lia.
+  - destruct (sched_effect _ _ _ H Logic.I) as (_&_&_&_&_&E&_). lia.
+  - destruct (sched_effect _ _ _ H Logic.I) as (_&_&_&_&_&E&_). lia.
+  - simpl in H. destruct (vstep_effect _ _ _ H) as (_&_&_&_&_&E&_). lia.
+  - destruct (sched_effect _ _ _ H Logic.I) as (_&_&_&_&_&E&_). lia.
+Qed.
+
+Lemma ssum_nonneg_idx F s : (forall t, (t < nthreads s)%nat -> 0 <= F (getth s t)) -> 0 <= ssum F s.
+Proof.
+  unfold ssum, nthreads, getth. induction (threads s) as [|th r IH]; simpl; intros H; [lia|].
+  pose proof (H O ltac:(lia)) as H0. simpl in H0.
+  assert (0 <= tsum F r). { apply IH. intros t Ht. apply (H (S t)). lia. }
+  lia.
+Qed.
+
+Lemma inflight_nonneg s : pcwf_inv s -> 0 <= inflight s.
+Proof.
+  intros Iw. apply ssum_nonneg_idx. intros t Ht. specialize (Iw t Ht). unfold pcof in Iw. unfold infl.
+  destruct (t_pc (getth s t)); try lia. destruct Iw as [W1 W2]. specialize (W1 a eq_refl). unfold args_ok in W1.
+  destruct ret; lia.
+Qed.
+
+(* conservation, in every reachable state, for every interleaving *)
+Lemma conservation c o ths nv s : 0 <= c < W64 -> reachable (init c o ths nv) s ->
+  (g_ret0 s + inflight s + m_count s) mod W64 = (g_init s + g_sig s) mod W64 /\
+  g_ret0 s + inflight s + m_count s <= g_init s + g_sig s /\
+  0 <= m_count s < W64 /\ 0 <= g_ret0 s /\ 0 <= inflight s /\
+  (g_init s + g_sig s < W64 -> g_ret0 s + inflight s + m_count s = g_init s + g_sig s).
+Proof.
+  intros Hc R.
+  assert (I : cons_inv s /\ 0 <= g_ret0 s).
+  { eapply (reachable_inv (fun s => cons_inv s /\ 0 <= g_ret0 s)); [| |exact R].
+    - split; [apply cons_inv_init; auto|simpl; lia].
+    - intros s1 l s2 [I1 I2] H. split; [eapply cons_inv_step; eauto|].
+      destruct I1 as (Iw&_). pose proof (gret0_mono _ _ _ Iw H). lia. }
+  destruct I as ((Iw&Ir&Im&Il)&Ig). pose proof (inflight_nonneg _ Iw) as Hi. unfold tokens in *. pose proof W64_pos.
+  assert (E : (g_ret0 s + inflight s + m_count s) mod W64 = (g_init s + g_sig s) mod W64).
+  { replace (g_init s + g_sig s) with ((g_init s + g_sig s - g_ret0 s - inflight s) + (g_ret0 s + inflight s)) by lia.
+    rewrite (Z.add_mod (g_init s + g_sig s - g_ret0 s - inflight s)) by lia. rewrite <- Im.
+    rewrite <- Z.add_mod by lia. f_equal; lia. }
+  repeat split; try lia; auto.
+  intros Hb. rewrite !Z.mod_small in E by lia. exact E.
+Qed.
+
+(* ---------------------------------------------------------------------------------------- *)
+(* T2: safe to destroy after wait.  A signal call that has acquired splock (ghost epoch `ep` =
+   number of wait returns at that moment) performs ALL its remaining accesses before any wait
+   call returns: while it is in flight, g_rets is still `ep`. *)
+Definition caller_ep (k : caller) : option nat := match k with CSignal ep => Some ep | _ => None end.
+Definition sig_ep (p : pc) : option nat :=
+  match p with
+  | SAdd _ ep | SUnlock ep => Some ep
+  | _ => match pc_caller p with Some k => caller_ep k | None => None end
+  end.
+Lemma sig_ep_holds p ep : sig_ep p = Some ep -> holds_sp p = true.
+Proof. destruct p; simpl; try discriminate; auto; destruct kk; simpl; auto; discriminate. Qed.
+
+Lemma tstep_ep s t s' : tstep s t = Some s' ->
+  (forall ep, sig_ep (pcof s' t) = Some ep -> sig_ep (pcof s t) = Some ep \/ ep = g_rets s') /\
+  (g_rets s' = g_rets s \/ exists a r k, pcof s t = WRet a r k).
+Proof.
+  intros H. tstep_cases H; apply ltb_lt in Hlt; norm; unfold pcof; rewrite ?Hpc;
+    cbn [sig_ep pc_caller pik_caller caller_ep]; (split; [intros ep0 E; try discriminate; auto|]); eauto.
+Qed.
+
+Definition ep_inv (s : state) : Prop :=
+  forall t ep, (t < nthreads s)%nat -> sig_ep (pcof s t) = Some ep -> ep = g_rets s.
+
+Lemma ep_inv_step s l s' : sp_inv s -> ep_inv s -> step s l = Some s' -> ep_inv s'.
+Proof.
+  intros [S1 S2] Iv H t' ep Hl He. destruct l.
+  - simpl in H. destruct (start_effect _ _ _ _ H) as (Ht&Hn&Hi&Hh&Fr&_&_&_&_&_&_&_&Er&_). rewrite Hn in Hl. rewrite Er.
+    destruct (Nat.eq_dec t' t) as [->|N]; [apply sig_ep_holds in He; congruence|rewrite Fr in He; eauto].
+  - simpl in H. rewrite (tstep_nthreads _ _ _ H) in Hl. pose proof (tstep_sp _ _ _ H) as [Ht _].
+    destruct (tstep_ep _ _ _ H) as [E1 E2].
+    destruct (Nat.eq_dec t' t) as [->|N].
+    + destruct (E1 _ He) as [E|E]; auto. specialize (Iv _ _ Hl E).
+      destruct E2 as [E2|(a&r&k&E2)]; [congruence|]. rewrite E2 in E. discriminate.
+    + erewrite tstep_pc_frame in He by eauto. specialize (Iv _ _ Hl He).
+      destruct E2 as [E2|(a&r&k&E2)]; [congruence|].
+      apply sig_ep_holds in He. pose proof (S1 _ Hl He) as Hx.
+      assert (Hy : holds_sp (pcof s t) = true) by (rewrite E2; reflexivity).
+      pose proof (S1 _ Ht Hy). congruence.
+  - destruct (sched_effect _ _ _ H Logic.I) as (Hn&Hp&_&_&_&_&Er&_). rewrite Hn in Hl. rewrite Hp in He. rewrite Er. eauto.
+  - destruct (sched_effect _ _ _ H Logic.I) as (Hn&Hp&_&_&_&_&Er&_). rewrite Hn in Hl. rewrite Hp in He. rewrite Er. eauto.
+  - destruct (sched_effect _ _ _ H Logic.I) as (Hn&Hp&_&_&_&_&Er&_). rewrite Hn in Hl. rewrite Hp in He. rewrite Er. eauto.
+  - simpl in H. destruct (vstep_effect _ _ _ H) as (Hn&Hp&_&_&_&_&Er&_). rewrite Hn in Hl. rewrite Hp in He. rewrite Er. eauto.
+  - destruct (sched_effect _ _ _ H Logic.I) as (Hn&Hp&_&_&_&_&Er&_). rewrite Hn in Hl. rewrite Hp in He. rewrite Er. eauto.
+Qed.
+
+Lemma sp_inv_reachable c o ths nv s : reachable (init c o ths nv) s -> sp_inv s.
+Proof. apply reachable_inv; [apply sp_inv_init|apply sp_inv_step]. Qed.
+
+Lemma destroy_safe c o ths nv s : reachable (init c o ths nv) s ->
+  forall t ep, (t < nthreads s)%nat -> sig_ep (pcof s t) = Some ep -> ep = g_rets s.
+Proof.
+  intros R.
+  assert (I : sp_inv s /\ ep_inv s).
+  { eapply (reachable_inv (fun s => sp_inv s /\ ep_inv s)); [| |exact R].
+    - split; [apply sp_inv_init|]. intros t ep _ E. rewrite init_pcof in E. discriminate.
+    - intros s1 l s2 [I1 I2] H. split; [eapply sp_inv_step; eauto|eapply ep_inv_step; eauto]. }
+  exact (proj2 I).
+Qed.
+
+(* at the moment a wait call returns (it is at its final unlock), no signal call is inside *)
+Lemma destroy_safe_at_return c o ths nv s : reachable (init c o ths nv) s ->
+  forall t a r k, (t < nthreads s)%nat -> pcof s t = WRet a r k ->
+  forall t', (t' < nthreads s)%nat -> sig_ep (pcof s t') = None.
+Proof.
+  intros R t a r k Ht Hp t' Ht'. destruct (sp_inv_reachable _ _ _ _ _ R) as [S1 _].
+  destruct (sig_ep (pcof s t')) eqn:E; auto. apply sig_ep_holds in E.
+  assert (Hy : holds_sp (pcof s t) = true) by (rewrite Hp; reflexivity).
+  pose proof (S1 _ Ht Hy). pose proof (S1 _ Ht' E). assert (t = t') by congruence. subst.
+  rewrite Hp in E. destruct (sig_ep (WRet a r k)) eqn:E2; simpl in E2; discriminate.
+Qed.
+
+(* ---------------------------------------------------------------------------------------- *)
+(* T3: m_count is only written by the holder of splock, hence try_subtract's CAS never fails *)
+Lemma tstep_mcount s t s' : tstep s t = Some s' -> m_count s' = m_count s \/ holds_sp (pcof s t) = true.
+Proof. intros H. tstep_cases H; norm; unfold pcof; rewrite ?Hpc; auto. Qed.
+Lemma tstep_to_cas s t s' a mc : tstep s t = Some s' -> pcof s' t = WCas a mc -> mc = m_count s /\ m_count s' = m_count s.
+Proof. intros H. tstep_cases H; apply ltb_lt in Hlt; norm; unfold pcof; rewrite ?Hpc; intros E; try discriminate; inv_some E; auto. Qed.
+
+Definition cas_inv (s : state) : Prop := forall t a mc, (t < nthreads s)%nat -> pcof s t = WCas a mc -> m_count s = mc.
+
+Lemma cas_inv_step s l s' : sp_inv s -> cas_inv s -> step s l = Some s' -> cas_inv s'.
+Proof.
+  intros [S1 S2] Iv H t' a mc Hl He. destruct l.
+  - simpl in H. destruct (start_effect _ _ _ _ H) as (Ht&Hn&Hi&Hh&Fr&_&_&_&Em&_). rewrite Hn in Hl. rewrite Em.
+    destruct (Nat.eq_dec t' t) as [->|N]; [rewrite He in Hh; discriminate|rewrite Fr in He; eauto].
+  - simpl in H. rewrite (tstep_nthreads _ _ _ H) in Hl. pose proof (tstep_sp _ _ _ H) as [Ht _].
+    destruct (Nat.eq_dec t' t) as [->|N].
+    + destruct (tstep_to_cas _ _ _ _ _ H He). congruence.
+    + erewrite tstep_pc_frame in He by eauto. specialize (Iv _ _ _ Hl He).
+      destruct (tstep_mcount _ _ _ H) as [E|E]; [congruence|].
+      assert (Hy : holds_sp (pcof s t') = true) by (rewrite He; reflexivity).
+      pose proof (S1 _ Ht E). pose proof (S1 _ Hl Hy). congruence.
+  - destruct (sched_effect _ _ _ H Logic.I) as (Hn&Hp&_&Em&_). rewrite Hn in Hl. rewrite Hp in He. rewrite Em. eauto.
+  - destruct (sched_effect _ _ _ H Logic.I) as (Hn&Hp&_&Em&_). rewrite Hn in Hl. rewrite Hp in He. rewrite Em. eauto.
+  - destruct (sched_effect _ _ _ H Logic.I) as (Hn&Hp&_&Em&_). rewrite Hn in Hl. rewrite Hp in He. rewrite Em. eauto.
+  - simpl in H. destruct (vstep_effect _ _ _ H) as (Hn&Hp&_&Em&_). rewrite Hn in Hl. rewrite Hp in He. rewrite Em. eauto.
+  - destruct (sched_effect _ _ _ H Logic.I) as (Hn&Hp&_&Em&_). rewrite Hn in Hl. rewrite Hp in He. rewrite Em. eauto.
+Qed.
+
+Lemma cas_never_fails c o ths nv s : reachable (init c o ths nv) s ->
+  forall t a mc, (t < nthreads s)%nat -> pcof s t = WCas a mc -> m_count s = mc.
+Proof.
+  intros R.
+  assert (I : sp_inv s /\ cas_inv s).
+  { eapply (reachable_inv (fun s => sp_inv s /\ cas_inv s)); [| |exact R].
+    - split; [apply sp_inv_init|]. intros t a mc _ E. rewrite init_pcof in E. discriminate.
+    - intros s1 l s2 [I1 I2] H. split; [eapply sp_inv_step; eauto|eapply cas_inv_step; eauto]. }
+  exact (proj2 I).
+Qed.
